@@ -20,7 +20,7 @@ PROP = Prop(
          "ackr build: one case = the pending user acknowledgements (offset, status, source, epoch; the same state appended twice for "
          "renew-then-terminal) and gap ranges of one partition; structured cases cut an offset line into acquired blocks that are either "
          "delivered records acked with a mix of accept/release/reject/renew/undecided in call order, shuffled or reversed, or holes (gap 0 / "
-         "release 2), over one or several fetches (epochs, sources), up to 30 blocks (> 12 elements leaves Go's stable insertion sort); 12 % "
+         "release 2), over one or several fetches (epochs, sources), a quarter of them with gap ranges queued twice / extended / sub-ranges, up to 30 blocks (> 12 elements leaves Go's stable insertion sort); 12 % "
          "malformed (overlapping/inverted gaps, gaps over entries, negative offsets, two states at one offset, odd statuses: compared with the "
          "model, not judged); thorough adds every input with <= 2 entries over offsets 0..3 x statuses {0,1,2,4} (and 3 entries x {1,2}) and "
          "<= 2 gaps over the intervals of 0..3 x types {0,2}. non-trivial = at least two decided entries/gap ranges. "
@@ -40,8 +40,9 @@ PROP = Prop(
                   "KafkaApis.validateAcknowledgementBatches; not part of any theorem",
                   "Lean compiler/runtime for the driver"],
     assumptions=["offsets are Kafka offsets: 0 <= offset < 2^63-1 (an entry at offset -1 is swallowed by the lastOffset = -1 sentinel; compared, not judged)",
-                 "gap ranges are well-formed, pairwise disjoint, of type gap (0) or release (2), and contain no decided user entry (what processSharePartition / "
-                 "releaseUndeliverable enqueue)",
+                 "gap ranges are well-formed, of type gap (0) or release (2), may repeat or overlap (a requeued gap and the gap of a re-acquisition; merged since "
+                 "4fd6241) provided overlapping ones have the same type (the merged range keeps the type of its first member), and contain no decided user entry "
+                 "(the code does not look at entry/gap overlap at all; what processSharePartition / releaseUndeliverable enqueue never overlaps a record)",
                  "statuses passed to tryAck are 1..4 (Record.Ack / MarkAcks reject anything else)",
                  "reachability of the failing class in the real flow was shown outside the check (harness/cmd/c12/e2eprobe: transactional topic, poll all, accept all -> "
                  "ShareFetch piggybacks [0,2][4,5][3,3][6,6]); that probe also shows kfake losing the piggybacked ack error when the ShareFetch long-polls",
